@@ -152,6 +152,9 @@ func (s *fsess) put(key string, vlen int) error {
 	}
 	s.model[key] = v
 	s.states = append(s.states, dbx.Clone(s.model))
+	if debugEnabled() {
+		fmt.Printf("after put %s: %+v\n", dbx.K(key), s.db.VerifSegments())
+	}
 	s.fs.Mark("E" + strconv.Itoa(i+1))
 	ev.End = s.fs.LogLen()
 	s.events = append(s.events, ev)
